@@ -199,7 +199,7 @@ def KM.idOf (g : KM) : Nat → Nat := fun k =>
   | some p => p.2
   | none => 0
 
-/-- LIVE `AssertKinds` (after hooks/C05-fix2.patch): `ids[i] = Put(kinds[i])`, position-wise -/
+/-- LIVE `AssertKinds` (/repo since 576f2e1 = hooks/C05-fix2.patch): `ids[i] = Put(kinds[i])`, position-wise -/
 def KM.assertKinds (g : KM) : List Nat → KM × List Nat
   | [] => (g, [])
   | k :: t => (((g.put true k).assertKinds t).1, (g.put true k).idOf k :: ((g.put true k).assertKinds t).2)
